@@ -507,22 +507,7 @@ def run(ctx):
     # D4 the comparison itself: "position by position with missing components read as 0, revision decides only when all components tie" is what
     # C03's CMP-2..CMP-5 / CMP-RET establish about dewey_cmp and dewey_test; a break of those breaks this property's stated order, so their
     # verdicts are part of this check (shared rule instances, evaluated on the current tree)
-    import rules.c03 as c03
-    from check import Ctx, Record
-    sub = Ctx("C03", ctx.tier, ctx.fx)
-    sub.inline_set = ctx.inline_set
-    sub.desugar = bool(getattr(c03, "DESUGAR", False))
-    try:
-        c03.run(sub)
-        shared = [r for r in sub.records if r.rule in ("CMP-2", "CMP-3", "CMP-4", "CMP-5", "CMP-RET") and not r.instance.startswith("floor:")]
-    except Exception:
-        shared = None
-    if not shared:
-        ctx.violation("D4-COMPARE", "dewey::dewey_cmp", "comparison-rules", "the comparison rules of dewey_cmp could not be evaluated", "")
-    else:
-        for r in shared:
-            ctx.records.append(Record("D4-COMPARE", r.item, "%s:%s" % (r.rule, r.instance), r.verdict, r.detail, r.span, False))
-    ctx.floor("D4-COMPARE", "dewey::dewey_cmp", "shared comparison rule instances", len(shared or []), 10)
+    share_rules(ctx, "C03", ("CMP-2", "CMP-3", "CMP-4", "CMP-5", "CMP-RET"), "D4-COMPARE", "dewey::dewey_cmp", 10)
     # D5 best_match
     bm = ctx.paths("pattern::Pattern::best_match")
     if bm:
